@@ -248,9 +248,17 @@ func (p *Parser) deconstructMap(rv reflect.Value, d *deconstruction) (buffers []
 					b[i] = buf[i]
 				}
 
+				d.undo = append(d.undo, func() { rv.SetMapIndex(mk, original) })
+
+				// The map holds the value itself (e.g. map[string]Binary),
+				// not a pointer to it or an interface.
+				if original.Kind() == reflect.Slice {
+					rv.SetMapIndex(mk, n)
+					return nil
+				}
+
 				x := reflect.New(mv.Type())
 				x.Elem().Set(n)
-				d.undo = append(d.undo, func() { rv.SetMapIndex(mk, original) })
 				rv.SetMapIndex(mk, x)
 				return nil
 			}
